@@ -68,13 +68,17 @@ theorem toList_sound_real_partial (ρ : String → ℝ) (B : Basis) (e : SymExpr
     ∃ l : ALabels, toListA B (build B none e) = some l ∧ evalLabels realSem ρ l = some (evalSym realSem ρ e) :=
   toList_sound_partial realSem realLaws ρ B e none hreg hstr hpos
 
-/-- Float replacement (`fit_from_string` / `string_to_aifeyn`), whenever the pass does not raise:
+/-- Float replacement (`fit_from_string` / `string_to_aifeyn`).  The pass raises only before the replacement step
+(`assert len(param_idx) <= maxvar`; `labels_to_shape`: ValueError for a label the basis does not name; `check_tree` /
+`labels[None]` on an arity string that is not a tree) — `relabel = none` models exactly those; the replacement step itself
+is total (since /repo 1ed8506 the root, which has no parent, no longer raises).  Whenever it returns:
 * the number of labels is unchanged;
 * without `replace_floats` every label — numeric ones included — is returned as renamed by the API (`canon`), so numeric
   constants keep their value;
 * with `replace_floats` a position is replaced iff it is a parameter, or a numeric literal whose PARENT label is not
-  `pow` (the parent is read off the tree of the label list: `parentsOf`); unreplaced positions keep their label — in
-  particular every number that is a direct child of `pow`; the replaced positions read `a0, a1, …` in order. -/
+  `pow` (the parent is read off the tree of the label list: `parentsOf`; the root has no parent and IS replaced);
+  unreplaced positions keep their label — in particular every number that is a direct child of `pow`; the replaced
+  positions read `a0, a1, …` in order. -/
 theorem relabel_spec (B : Basis) (rf : Bool) (mv : Nat) (raw out : List String) (h : relabel B rf mv raw = some out) :
     out.length = raw.length ∧
     (rf = false → out = raw.map canon) ∧
@@ -83,10 +87,26 @@ theorem relabel_spec (B : Basis) (rf : Bool) (mv : Nat) (raw out : List String) 
         parentsOf (raw.map canon) s = some parents ∧
         parents.length = raw.length ∧ mask.length = raw.length ∧
         (∀ (j : Nat) lab par m, (raw.map canon)[j]? = some lab → parents[j]? = some par → mask[j]? = some m →
-           (m = true ↔ (isFloatLabel lab = true ∧ ∃ q, par = some q ∧ lower q ≠ noReplaceParent) ∨ isParamLabel lab = true)) ∧
+           (m = true ↔ (isFloatLabel lab = true ∧ ¬ ∃ q, par = some q ∧ lower q = noReplaceParent) ∨ isParamLabel lab = true)) ∧
         (∀ (j : Nat) lab, (raw.map canon)[j]? = some lab → mask[j]? = some false → out[j]? = some lab) ∧
         ∃ n, masked out mask = (List.range n).map (fun i => "a" ++ toString i)) :=
   relabel_spec_aux B rf mv raw out h
+
+/-- The replacement step never raises: once the tree of the label list has been read (`labels_to_shape`, `check_tree`),
+`relabel` returns for either value of `replace_floats`. -/
+theorem relabel_total_after_shape (B : Basis) (mv : Nat) (raw out : List String) (h : relabel B false mv raw = some out) :
+    ∃ out', relabel B true mv raw = some out' := by
+  unfold relabel at h ⊢
+  simp only at h ⊢
+  split at h
+  · simp at h
+  · rename_i hmv
+    simp only [hmv, if_false]
+    split at h
+    · simp at h
+    · split at h
+      · simp at h
+      · simp
 
 /-- A numeric label directly under `pow` survives `replace_floats` (corollary of `relabel_spec`). -/
 theorem relabel_keeps_pow_children (B : Basis) (mv : Nat) (raw out : List String) (h : relabel B true mv raw = some out) :
@@ -106,10 +126,19 @@ theorem relabel_keeps_pow_children (B : Basis) (mv : Nat) (raw out : List String
     | false => rfl
     | true =>
       rw [hb] at this
-      rcases this.mp rfl with ⟨-, q', hq', hne⟩ | hpl
-      · simp at hq'; subst hq'; exact absurd hq hne
+      rcases this.mp rfl with ⟨-, hne⟩ | hpl
+      · exact absurd ⟨q, rfl, hq⟩ hne
       · rw [hnp] at hpl; simp at hpl
   exact hkeep j lab hl (by rw [hmj, hfalse])
+
+/-- A formula that converts to a single number: with `replace_floats` the number becomes `a0` (root: no parent). -/
+theorem relabel_root_number (B : Basis) (mv : Nat) (hmv : 1 ≤ mv) (lab : String) (hf : isFloatLabel (canon lab) = true)
+    (hb : labelArity B "a0" = some 0) : relabel B true mv [lab] = some ["a0"] := by
+  have hmask : (isFloatLabel (canon lab) || isParamLabel (canon lab)) = true := by simp [hf]
+  have hct : ESR.Shape.checkTree [0] = .ok true none [none] [none] [none] := by rfl
+  have h0 : ("a" ++ Nat.repr 0) = "a0" := by decide
+  have hmv' : ¬ 1 > mv := by omega
+  simp [relabel, hmask, renumber, labelsToShape, List.mapM_cons, h0, hb, parentsOf, hct, replaceMask, hf, hmv']
 
 /-! ### non-vacuity: the hypotheses hold on concrete, non-trivial cases -/
 
@@ -139,8 +168,8 @@ example : relabel core true 20 ["Add", "2.50000000000000", "Mul", "a1", "Pow", "
     some ["+", "a0", "*", "a1", "pow", "x", "3"] := by decide
 /-- a number deeper inside an exponent IS replaced (the documented reading: only direct children of pow are kept) -/
 example : relabel core true 20 ["Pow", "x", "Mul", "2.50000000000000", "a0"] = some ["pow", "x", "*", "a0", "a1"] := by decide
-/-- a constant formula with `replace_floats` raises (`parents[0]` is None) -/
-example : relabel core true 20 ["2.50000000000000"] = none := by decide
+/-- a constant formula with `replace_floats`: the root number becomes `a0` -/
+example : relabel core true 20 ["2.50000000000000"] = some ["a0"] := by decide
 /-- an operator the basis does not name raises (`labels_to_shape`: ValueError) -/
 example : relabel keep false 20 ["Sqrt", "x"] = none := by decide
 
